@@ -6,6 +6,8 @@ import (
 	"testing"
 	"time"
 
+	"pgregory.net/rapid"
+
 	"verif/internal/hx"
 )
 
@@ -27,6 +29,9 @@ func propC01(h History) error {
 	}
 	bk := newBook(h)
 	delivered := map[int]int{} // message id -> op index of its delivery
+	nested := map[int]Op{}     // pushes made by the Stream from inside callbacks
+	reentered := false
+	duringClose := map[int]bool{}
 	seqDeliveries := map[uint32]int{}
 	multi, incompleteEvict, reuse, rawDelivered, eoeCompletion := false, false, false, false, false
 	for i, o := range h.Ops {
@@ -53,6 +58,16 @@ func propC01(h History) error {
 			bk.notePush(i, o, st)
 		}
 		for _, cb := range st.CBs {
+			if cb.NestedPush {
+				// a push the Stream made from inside a callback: a push like any other
+				nested[cb.PushID] = Op{K: opPush, Seq: cb.PushSeq, Typ: cb.PushTyp}
+				bk.notePush(cb.PushID, nested[cb.PushID], st)
+				reentered = true
+				if o.K == opClose {
+					duringClose[cb.PushID] = true // pushed after Close was invoked: nobody promises its delivery
+				}
+				continue
+			}
 			if !cb.IsEv {
 				continue
 			}
@@ -64,20 +79,24 @@ func propC01(h History) error {
 				if cb.Seqs[k] != seq {
 					return fmt.Errorf("op %d: callback mixes sequences %d and %d", i, seq, cb.Seqs[k])
 				}
-				if id < 0 || id >= len(h.Ops) || !isPush(h.Ops[id]) {
+				pushed, known := nested[id]
+				if !known && id >= 0 && id < len(h.Ops) && isPush(h.Ops[id]) {
+					pushed, known = h.Ops[id], true
+				}
+				if !known {
 					return fmt.Errorf("op %d: delivered a message that was never pushed (seq %d type %d)", i, cb.Seqs[k], cb.Typs[k])
 				}
 				if cb.Typs[k] == eoe {
 					return fmt.Errorf("op %d: EOE record delivered (seq %d)", i, seq)
 				}
-				if h.Ops[id].Seq != cb.Seqs[k] || h.Ops[id].Typ != cb.Typs[k] {
-					return fmt.Errorf("op %d: message %d delivered as seq=%d type=%d but was pushed as seq=%d type=%d", i, id, cb.Seqs[k], cb.Typs[k], h.Ops[id].Seq, h.Ops[id].Typ)
+				if pushed.Seq != cb.Seqs[k] || pushed.Typ != cb.Typs[k] {
+					return fmt.Errorf("op %d: message %d delivered as seq=%d type=%d but was pushed as seq=%d type=%d", i, id, cb.Seqs[k], cb.Typs[k], pushed.Seq, pushed.Typ)
 				}
 				if at, dup := delivered[id]; dup {
 					return fmt.Errorf("op %d: message pushed by op %d delivered twice (first in op %d)", i, id, at)
 				}
 				delivered[id] = i
-				if h.Ops[id].K == opPushRaw {
+				if pushed.K == opPushRaw {
 					rawDelivered = true
 				}
 			}
@@ -108,7 +127,15 @@ func propC01(h History) error {
 	}
 	if n := len(h.Ops); n > 0 && h.Ops[n-1].K == opClose {
 		for seq, e := range bk.pending {
-			return fmt.Errorf("after Close: records %v of sequence %d were never delivered", e.ids, seq)
+			var missing []int
+			for _, id := range e.ids {
+				if !duringClose[id] {
+					missing = append(missing, id)
+				}
+			}
+			if len(missing) > 0 {
+				return fmt.Errorf("after Close: records %v of sequence %d were never delivered", missing, seq)
+			}
 		}
 	}
 	if incompleteEvict {
@@ -123,6 +150,9 @@ func propC01(h History) error {
 	if eoeCompletion {
 		hC01.Class("history-with-EOE-completion")
 	}
+	if reentered {
+		hC01.Class("history-with-reentrant-calls")
+	}
 	if multi && (incompleteEvict || reuse || rawDelivered || eoeCompletion) {
 		hC01.NonTrivial(fpHistory(h), h.Describe)
 	}
@@ -135,6 +165,8 @@ func TestC01(t *testing.T) {
 	hx.Check(t, hC01, "TestC01", func(rt *rapidT) History {
 		c := c01Cfg
 		c.windowed = rapidBool(rt, "windowed")
-		return genHistory(rt, c)
+		h := genHistory(rt, c)
+		h.Reenter = rapid.SampledFrom([]string{"", "", "", "maintain", "pushfresh", "pusheoe", "pusheoe"}).Draw(rt, "reenter")
+		return h
 	}, propC01)
 }
